@@ -245,7 +245,7 @@ func normalisePackage(pkgPath string, loadPkgs func(...string) ([]*packages.Pack
 					serr = fmt.Errorf("%v; hoisting: %v", serr, herr)
 				}
 			}
-			if serr != nil && strings.Contains(serr.Error(), "*ast.DeferStmt") {
+			if serr != nil && (strings.Contains(serr.Error(), "*ast.DeferStmt") || strings.Contains(serr.Error(), "*ast.GoStmt")) {
 				// `defer H(&flag)`: wrap the call in a literal (`defer func() { H(&flag) }()`) when its operands mean the
 				// same at function exit as at the defer statement; the next iteration inlines the call inside
 				if h, herr := deferWrap(p, cd.file, cd.call, content); herr == nil {
